@@ -238,13 +238,14 @@ fn run_error_paths<A: Shredder, B: Shredder>(name: &'static str, lengths: &[usiz
                 continue;
             }
             let slice = mk_slice(9, 1, true, with_parent, data_len);
-            let Ok(shreds) = a.shred(&slice, &sk) else { continue };
+            // (a panicking shred() is reported by run_shredder; here it only ends the case)
+            let Ok(Ok(shreds)) = catch(std::panic::AssertUnwindSafe(|| a.shred(&slice, &sk))) else { continue };
             // a second slice of another length / content for mixing
             let other_len = if data_len > 200 { data_len - 150 } else { data_len + 150 };
             let slice2 = mk_slice(9, 1, true, with_parent, other_len);
             let slice3 = mk_slice(9, 1, false, with_parent, data_len);
-            let shreds2 = a.shred(&slice2, &sk).ok();
-            let shreds3 = a.shred(&slice3, &sk).ok();
+            let shreds2 = catch(std::panic::AssertUnwindSafe(|| a.shred(&slice2, &sk))).ok().and_then(|r| r.ok());
+            let shreds3 = catch(std::panic::AssertUnwindSafe(|| a.shred(&slice3, &sk))).ok().and_then(|r| r.ok());
             for (fname, keep) in &keeps {
                 for variant in ["cross-shredder", "mixed-sizes", "mixed-same-size"] {
                     let mut arr: [Option<ValidatedShred>; TOTAL_SHREDS] = [const { None }; TOTAL_SHREDS];
